@@ -12,7 +12,7 @@ import (
 // version strings of every shape the property quantifies over.
 func randVersion(r *rng) []byte {
 	nums := []string{"0", "1", "2", "3", "5", "6", "7", "8", "9", "10", "007", "00", "4294967295", "4294967296", "99999999999999999999", "-1", "+1", "1_0", " 1", "1 ", "0x7", "", "７"}
-	switch r.intn(12) {
+	switch r.intn(13) {
 	case 0:
 		return []byte("9P2000.L")
 	case 1:
@@ -34,6 +34,15 @@ func randVersion(r *rng) []byte {
 		return b
 	case 8:
 		return r.bytesN(r.intn(24))
+	case 9: // a piece of a good one: every suffix ("5", "Google.5", ".L.Google.5") and prefix
+		b := []byte(fmt.Sprintf("9P2000.L.Google.%d", r.intn(12)))
+		if r.chance(2, 3) {
+			return b[r.intn(len(b)):]
+		}
+		return b[:r.intn(len(b)+1)]
+	case 10: // a bare number, or a number with another lead-in
+		leads := []string{"", "", "", ".", "Google.", "L.Google.", "9P2000.L.Google", "9P2000.L.Google.9P2000.L.Google.", "9P2000.u.Google.", "9P2000.Google."}
+		return []byte(leads[r.intn(len(leads))] + nums[r.intn(len(nums))])
 	default:
 		return []byte(fmt.Sprintf("9P2000.L.Google.%s%d", strings.Repeat("0", r.intn(4)), r.intn(9)))
 	}
